@@ -567,7 +567,9 @@ def step (st : State) (line : String) : State × String :=
       else ({ st with done := true }, observeC09 st (m == "run") j log)
     | _, _ => (st, "bad-op")
   | 10, ["runner", m] =>
-    if !(m == "plain" || m == "block") || st.runnerMode || st.host.isSome || st.narb > 0 || st.nlines > 0 then
+    -- (`stopped`: `System::stop()` handled first, the arbiters created afterwards — registered behind the last
+    -- Exit, so no Stop is ever sent to them: the same schedules)
+    if !(m == "plain" || m == "block" || m == "stopped") || st.runnerMode || st.host.isSome || st.narb > 0 || st.nlines > 0 then
       (st, "bad-op")
     else ({ st with runnerMode := true }, "ok")
   | 10, ["dropsys"] =>
@@ -653,6 +655,15 @@ def step (st : State) (line : String) : State × String :=
   | 10, ["ident"] =>
     if st.sysIdx.isSome || st.nlines > 0 || st.runnerMode then (st, "bad-op")
     else ({ st with done := true }, identC10 st.narb st.host)
+  | 10, ["syslive", r] =>
+    match nat? r with
+    | some r =>
+      if r < 1 || r > 200 then (st, "bad-op")
+      else
+        -- three constructions per round; a System whose `run` has returned gives nothing back to the counter
+        let ids := fetchAdds 0 (3 * r)
+        (st, s!"syslive={if ids.eraseDups.length == ids.length then "distinct" else "bad"} rounds={r}")
+    | none => (st, "bad-op")
   | 10, ["sysids", t, r] =>
     match nat? t, nat? r with
     | some t, some r =>
